@@ -1291,7 +1291,42 @@ def p_top(ip, st, args, info):
     return _ret(st, TOP)
 
 
+def p_refcell_borrow(ip, st, args, info):
+    """RefCell is represented transparently (a RefCell<T> place holds the T value, like Cell / UnsafeCell): a
+    borrow of a RefCell in modelled memory is a reference to that place; the borrow flag is not tracked (a guard
+    lives for one statement in the code that uses it this way, and a re-entrant borrow would need a callback)."""
+    r = args[0]
+    if r[0] == "ref" and r[1] in st.mem:
+        return _ret(st, r)
+    return NotImplemented
+
+
+def p_refcell_try_borrow(ip, st, args, info):
+    r = args[0]
+    if r[0] == "ref" and r[1] in st.mem:
+        return _ret(st, adt("core::result::Result", 0, (r,)))
+    return NotImplemented
+
+
+def p_guard_deref(ip, st, args, info):
+    r = args[0]
+    if r[0] == "ref" and r[1] in st.mem:
+        v = ip.read(st, r[1], r[2])
+        if v[0] == "ref":
+            return _ret(st, v)
+    return NotImplemented
+
+
 BASE_PRIMS = {
+    "core::cell::RefCell::new": p_identity,
+    "core::cell::RefCell::into_inner": p_identity,
+    "core::cell::RefCell::borrow": p_refcell_borrow,
+    "core::cell::RefCell::borrow_mut": p_refcell_borrow,
+    "core::cell::RefCell::try_borrow": p_refcell_try_borrow,
+    "core::cell::RefCell::try_borrow_mut": p_refcell_try_borrow,
+    "<core::cell::Ref as core::ops::deref::Deref>::deref": p_guard_deref,
+    "<core::cell::RefMut as core::ops::deref::Deref>::deref": p_guard_deref,
+    "<core::cell::RefMut as core::ops::deref::DerefMut>::deref_mut": p_guard_deref,
     "core::cell::Cell::new": p_identity,
     "core::cell::Cell::get": p_cell_get,
     "core::cell::Cell::set": p_cell_set,
